@@ -131,6 +131,7 @@ class Batch:
         self.runs = 0
         self.worker_deaths = 0
         self.wall = 0.0
+        self.cut_short = False
 
     def merge(self, o):
         self.fps.update(o.fps)
@@ -228,11 +229,18 @@ def run_batch(binary, prop, tier, first, count, outdir, workers=NCPU, extra=(), 
                 raise RuntimeError("worker exceeded the batch wall-clock cap; partial output: %s" % out[-500:])
             runs_before = b.runs
             last_start, ended = _parse_lines(out.split("\n"), b, known_sigs)
+            # Outcomes that cost a whole CPU budget each (the code under test did not return): once a batch has
+            # seen a few dozen of them the verdict is clear, and running the remaining seeds would only take
+            # budget x seeds of wall time. The stripes that ended this way are not restarted any more.
+            slow = sum(1 for v in b.violations if re.search(r"timeout|TIMEOUT|HANG", v["signature"])) + sum(c for k, c in b.known.items() if re.search(r"timeout|TIMEOUT|HANG", k))
+            if slow > 24 and not b.cut_short:
+                b.cut_short = True
+                log("[batch] %d runs did not return within their CPU budget: the remaining seeds of the stripes that end this way are not run" % slow)
             if p.returncode == 98 and ended:
                 # the worker ended itself after reporting a crash-class outcome of its last run
                 b.worker_deaths += 1
                 done = b.runs - runs_before
-                if n - done > 0:
+                if n - done > 0 and not b.cut_short:
                     nf = frm + done * workers
                     nxt.append((start(nf, n - done), nf, n - done))
             elif p.returncode != 0 or not ended:
@@ -306,7 +314,12 @@ def gate_and_report(prop, binary, batch, outdir, extra=(), env=None, max_reports
                 continue
         # (b) minimise
         final = os.path.join(VERIF, "replays", "%s-%d.plan" % (prop, seed))
-        m = subprocess.run([binary, "min", v["path"], final] + list(extra), stdout=subprocess.PIPE, stderr=subprocess.STDOUT, text=True, errors="replace", env=env)
+        if re.search(r"timeout|TIMEOUT|HANG", sig):
+            # every attempt of the minimiser would cost a whole CPU budget: the plan is reported as generated
+            shutil.copy(v["path"], final)
+            m = subprocess.CompletedProcess([], 0, stdout="MIN skipped (the code under test does not return: each attempt costs a whole CPU budget)")
+        else:
+            m = subprocess.run([binary, "min", v["path"], final] + list(extra), stdout=subprocess.PIPE, stderr=subprocess.STDOUT, text=True, errors="replace", env=env)
         if m.returncode != 0 or not os.path.exists(final):
             log("HARNESS-ERROR property=%s seed=%d: minimiser could not reproduce `%s`: %s" % (prop, seed, sig, m.stdout[-300:]))
             harness_error = True
